@@ -169,7 +169,7 @@ func keysOf(us []*url.URL) []string {
 }
 
 func c02Script(c *Ctx) {
-	c.Cases("hist", c.N(500, 15000), func(i int, r *rand.Rand) {
+	c.Cases("hist", c.N(2500, 60000), func(i int, r *rand.Rand) {
 		kind := pick(r, []string{"rr", "rb", "rb"})
 		meterMode := "never"
 		if kind == "rb" {
@@ -457,7 +457,7 @@ func c02Script(c *Ctx) {
 
 // c02Mutate: nothing a downstream handler does to the request alters the pool.
 func c02Mutate(c *Ctx) {
-	c.Cases("mutate", c.N(200, 5000), func(i int, r *rand.Rand) {
+	c.Cases("mutate", c.N(1000, 20000), func(i int, r *rand.Rand) {
 		kind := pick(r, []string{"rr", "rb"})
 		useSticky := r.IntN(3) != 0
 		if i == 0 {
@@ -560,7 +560,7 @@ func c02Mutate(c *Ctx) {
 
 // c02Conc: requests racing with administration.
 func c02Conc(c *Ctx) {
-	c.Cases("conc", c.N(40, 1200), func(i int, r *rand.Rand) {
+	c.Cases("conc", c.N(120, 4000), func(i int, r *rand.Rand) {
 		kind := pick(r, []string{"rr", "rb"})
 		var clk atomic.Int64
 		type obs struct {
